@@ -1,6 +1,6 @@
 #!/bin/bash
 # tools/with_patch.sh <patch.diff> [-R] <id> [<id>...] : apply the patch to /repo, run the quick checks, undo.
-patch="$1"; shift
+patch="$(readlink -f "$1")"; shift
 rev=""; if [ "$1" = "-R" ]; then rev="-R"; shift; fi
 cd /repo || exit 3
 git diff --quiet || { echo "/repo has uncommitted changes"; exit 3; }
